@@ -15,6 +15,7 @@ import EvalexprVerif.Proofs.IteratorsSeq
 import EvalexprVerif.Proofs.IteratorsSeqEval
 import EvalexprVerif.Proofs.Iterators
 import EvalexprVerif.Proofs.AgreeIter
+import EvalexprVerif.Spec.Properties.C02
 
 namespace Evalexpr.Spec.C14
 open Evalexpr Evalexpr.Spec
@@ -40,6 +41,17 @@ theorem C14_source_level (l : Level) : identOccurrences (levelTree l) = occLevel
 theorem C14_source_level_built (l : Level) (h : levelWf l = true) :
     (tokensToOperatorTree (renderLevel l)).map identOccurrences = .ok (occLevel l) :=
   Evalexpr.Spec.C14_source_level_built l h
+
+/-- **C14 at the level of source text**: precompiling ANY admissible spelling (whitespace of every class,
+comments, literals in every spelling) of the rendering of ANY expression AST yields a tree whose identifier
+occurrences are exactly the source occurrences of the AST, in order and correctly classified
+(`C02_string_ext` + `C14_source`) -/
+theorem C14_source_string (e : Expr) (ps : List (Gap × PTok)) (g : Gap)
+    (hts : ps.map (·.2.tok) = render e) (hp : ∀ p ∈ ps, p.2.PrintableX) (ha : AdmissibleX ps g) :
+    (buildOperatorTree (renderFrom ps g)).map identOccurrences = .ok (occ e) := by
+  rw [Evalexpr.Spec.C02.C02_string_ext e ps g hts hp ha]
+  show Except.ok (identOccurrences ⟨.rootNode, [toTree e]⟩) = _
+  rw [C14_source e]
 
 /-- `a; ; f x, ()`: the occurrences after an absent element and before an empty group are all listed -/
 example : occLevel [[some (.expr (.var cl!"a"))], [none], [some (.expr (.call cl!"f" (.var cl!"x"))), some (.group [[]])]]
